@@ -64,7 +64,21 @@ def proof_stage(rep, prop, imports, obligations, general_theorems, atoms_expr=No
     # the lake lock is taken inside lake_build; Gen/Data must be built before lean_eval
     ok0, log0 = common.lake_build(sorted(set(["O1722.Gen.Data"] + list(imports))))
     if not ok0:
-        raise ToolError("Gen/Data.lean or Props do not build:\n" + log0[-3000:])
+        # The hand-written library builds in setup; what can fail here is the REGENERATED model of the
+        # current sources (or an obligation file of an earlier run).  Then nothing is shown for this
+        # tree: that is reported as an undischarged obligation (the correspondence run still looks for
+        # a failing input), not as a tool error.
+        m = re.search(r"error: ([^\n]*Gen/[A-Za-z]+\.lean:\d+:\d+[^\n]*)", log0)
+        if not m:
+            raise ToolError("Props do not build:\n" + log0[-3000:])
+        rep.cov.setdefault("obligations", 0)
+        rep.cov["obligations"] += len(general_theorems) + len(obligations)
+        rep.cov.setdefault("discharged", 0)
+        rep.cov["checker_cmd"] = "cd lean && lake build %s" % mod
+        rep.cov["trusted_base"] = ["Lean 4.33.0 kernel"]
+        rep.cov["source_hash"] = gen["source_hash"][:16]
+        return {"failed_atoms": [], "failed_theorems": ["regenerated-model-does-not-build"], "build_ok": False,
+                "build_log": m.group(1) + "\n" + log0[-3000:], "axioms": {}, "bad_axioms": [], "forbidden_hits": [], "gen": gen}
     if atoms_expr:
         ev = "\n".join("import " + i for i in imports) + "\nopen O1722\n" + \
             "#eval (%s).forM (fun (g, as) => as.forM (fun (a, b) => IO.println s!\"ATOM {g} {a} {b}\")) *> pure ()\n" % atoms_expr
